@@ -66,10 +66,13 @@ func Incremental(op opcat.Op) bool { return strings.HasSuffix(op.Name, "/incr") 
 type Input struct {
 	Name  string // stable name: path relative to the repo, or gen/<i>
 	Path  string
-	Kind  string // "corpus" | "pdfgen"
+	Kind  string // "corpus" | "pdfgen" | "sparse" (pdfgen document with a numbering extreme, see PoolOptions.Sparse)
 	Pages int
 	Tags  map[string]bool // pdfgen: xrefstream objstm hybrid updates inherit annots sig viewer form outlines files enc
 	Enc   string          // algorithm of an encrypted pdfgen input ("" = clear)
+	// Numbering: kind of numbering extreme of a "sparse" input (pdfgen.NumberingKind), MaxNum its highest object number.
+	Numbering string
+	MaxNum    int
 	// StrictOK: the input also passes api.ValidateFile in strict mode (only computed when PoolOptions.Strict).
 	StrictOK bool
 }
@@ -80,8 +83,9 @@ type Pool struct {
 	Dir    string // directory holding generated inputs
 	Inputs []Input
 	// statistics
-	CorpusCandidates, CorpusRejected, GenRejected int
-	many                                          []int // indices of inputs with >= 8 pages
+	CorpusCandidates, CorpusRejected, GenRejected, SparseRejected int
+	many                                                          []int // indices of inputs with >= 8 pages
+	general                                                       int   // Inputs[:general] are what Plans substitutes; the rest are the sparse inputs
 }
 
 // PoolOptions sizes the pool.
@@ -90,6 +94,11 @@ type PoolOptions struct {
 	Gen      int   // pdfgen documents to build
 	MaxBytes int64 // corpus size bound (default 1 MiB)
 	Strict   bool  // also record whether each input passes strict validation (Input.StrictOK)
+	// Sparse: pdfgen documents with numbering extremes (pdfgen.ModerateNumberingKinds in rotation: strided
+	// numbers, objects >= 65536, generations > 0, free entries at high numbers, /Size >> object count).
+	// SparseHuge: documents with an object or a free entry >= 2^24 (pdfcpu needs 10-200 CPU seconds and
+	// several hundred MB per write of such a document). Both kinds are only used by SparsePlans, never by Plans.
+	Sparse, SparseHuge int
 }
 
 func relaxedConf() *model.Configuration {
@@ -213,7 +222,85 @@ func BuildPool(t *vk.T, o PoolOptions) *Pool {
 	if len(p.Inputs) == 0 {
 		t.Broken("empty input pool")
 	}
+	// ---- documents with numbering extremes (behind the inputs Plans draws from)
+	p.general = len(p.Inputs)
+	nsp := o.Sparse + o.SparseHuge
+	sp := make([]*Input, nsp)
+	vk.Parallel(nsp, func(i int) {
+		mod, huge := pdfgen.ModerateNumberingKinds(), []pdfgen.NumberingKind{pdfgen.NumHigh24, pdfgen.NumFreeHigh24}
+		kind := mod[(i+seedMod(t, len(mod)))%len(mod)]
+		if i >= o.Sparse {
+			kind = huge[(i-o.Sparse+seedMod(t, len(huge)))%len(huge)]
+		}
+		in, data := GenSparse(t.RNGi("opwl-sparse", i), i, kind)
+		if in == nil {
+			return
+		}
+		in.Path = filepath.Join(p.Dir, fmt.Sprintf("sparse_%d.pdf", i))
+		if os.WriteFile(in.Path, data, 0o644) != nil {
+			return
+		}
+		if !kind.Huge() && Validate(in.Path, false) != nil { // validating a huge one costs as much as a case
+			os.Remove(in.Path)
+			return
+		}
+		sp[i] = in
+	})
+	for _, in := range sp {
+		if in != nil {
+			p.Inputs = append(p.Inputs, *in)
+		} else {
+			p.SparseRejected++
+		}
+	}
 	return p
+}
+
+func seedMod(t *vk.T, m int) int { return int(((t.Seed % int64(m)) + int64(m)) % int64(m)) }
+
+// GenSparse builds sparse document i: a pdfgen document (1-8 pages, all writer options in rotation, no
+// encryption) renumbered by pdfgen.SparseNumbering(kind). Exported for repro tools.
+func GenSparse(rng *rand.Rand, i int, kind pdfgen.NumberingKind) (*Input, []byte) {
+	spec := pdfgen.RandomSpec(rng, 8)
+	switch i % 4 {
+	case 0:
+		spec.Write.XRef, spec.Write.ObjStm = pdfgen.XRefStream, true
+	case 1:
+		spec.Write.XRef, spec.Write.ObjStm = pdfgen.XRefTable, false
+	case 2:
+		spec.Write.XRef, spec.Write.ObjStm = pdfgen.XRefStream, false
+	}
+	if i%5 == 3 {
+		spec.Updates = 1 + rng.IntN(2)
+	}
+	if i%3 != 2 {
+		spec.Pages = 8 + rng.IntN(4) // the fixed parameters of the catalogue address pages 1..8
+	}
+	spec.Write.Version = "1.7"
+	if kind.Huge() {
+		// pdfcpu refuses a cross-reference STREAM whose /Size exceeds its resource limit MaxObjectCount (10 million)
+		// and then reconstructs the table by scanning, which loses compressed objects: numbers >= 2^24 only reach it
+		// through a classic table
+		spec.Write.XRef, spec.Write.ObjStm = pdfgen.XRefTable, false
+	}
+	bt, plan, err := pdfgen.BuildSparse(spec, rng, kind)
+	if err != nil {
+		return nil, nil
+	}
+	in := &Input{Name: fmt.Sprintf("sparse/%d-%s", i, kind), Kind: "sparse", Tags: map[string]bool{"sparse": true, "num-" + kind.String(): true},
+		Pages: len(bt.Truth.Pages), Numbering: kind.String(), MaxNum: plan.MaxNum}
+	set := func(k string, b bool) {
+		if b {
+			in.Tags[k] = true
+		}
+	}
+	set("xrefstream", bt.Spec.Write.XRef == pdfgen.XRefStream)
+	set("hybrid", bt.Spec.Write.XRef == pdfgen.XRefHybrid)
+	set("objstm", bt.Spec.Write.ObjStm)
+	set("updates", spec.Updates > 0)
+	set("annots", spec.Annotations)
+	set("huge", kind.Huge())
+	return in, bt.Bytes
 }
 
 // genInput builds pdfgen document i (a pure function of the seed and i); nil if pdfcpu does not validate it.
@@ -375,7 +462,7 @@ func (p *Pool) pick(rng *rand.Rand, want func(Input) bool, preferMany bool) (int
 		}
 	}
 	for try := 0; try < 40; try++ {
-		i := rng.IntN(len(p.Inputs))
+		i := rng.IntN(p.general)
 		if want == nil || want(p.Inputs[i]) {
 			return i, true
 		}
@@ -450,6 +537,75 @@ func (p *Pool) Plans(t *vk.T, ops []opcat.Op, n int) []Plan {
 			}
 		}
 		out[i] = pl
+	}
+	return out
+}
+
+// SparsePlans returns cases for the pool's sparse inputs (PoolOptions.Sparse/SparseHuge): each of them is
+// substituted for the generic fixture (one.pdf / multi.pdf, as primary input or as merge input) of perInput
+// operations (perHuge for the huge ones) of ops: always a whole-document rewrite (OptimizeFile or WriteContextFile), an
+// operation appending an incremental update if ops has one, the others drawn from the eligible operations
+// with the case PRNG. Plan.Index counts on from first. The caller runs every plan under the writer
+// configurations it wants.
+func (p *Pool) SparsePlans(t *vk.T, ops []opcat.Op, perInput, perHuge, first int) []Plan {
+	generic := func(fx string) bool { return fx == opcat.FxMulti || fx == opcat.FxOne }
+	var eligible, rewrite, incr []opcat.Op
+	for _, op := range ops {
+		ok := generic(op.Input)
+		if op.Input == "" {
+			for _, fx := range op.Extra {
+				ok = ok || generic(fx)
+			}
+		}
+		switch {
+		case !ok:
+		case strings.HasPrefix(op.Name, "Remove") || op.Name == "AddBookmarksFile":
+			// need (or must not find) a particular feature in the input: left to Plans
+		case op.Name == "OptimizeFile" || op.Name == "WriteContextFile":
+			rewrite = append(rewrite, op)
+		case Incremental(op):
+			incr = append(incr, op)
+		default:
+			eligible = append(eligible, op)
+		}
+	}
+	var out []Plan
+	for si := p.general; si < len(p.Inputs); si++ {
+		in := p.Inputs[si]
+		rng := t.RNGi("opwl-sparse-plan", si-p.general)
+		k := perInput
+		if in.Tags["huge"] {
+			k = perHuge
+		}
+		var chosen []opcat.Op
+		if len(rewrite) > 0 && k > 0 {
+			chosen = append(chosen, rewrite[(si+seedMod(t, len(rewrite)))%len(rewrite)])
+		}
+		if len(incr) > 0 && k > 1 {
+			chosen = append(chosen, incr[rng.IntN(len(incr))])
+		}
+		for _, j := range rng.Perm(len(eligible)) {
+			if len(chosen) >= k {
+				break
+			}
+			chosen = append(chosen, eligible[j])
+		}
+		for _, op := range chosen {
+			pl := Plan{Index: first + len(out), Round: 2, Op: op, Subs: map[string]int{}, Derive: map[string]string{}, Random: rng.IntN(4) != 0}
+			pl.InPlace = op.InPlace && (Incremental(op) || rng.IntN(2) == 0)
+			if op.Input != "" {
+				pl.Subs[op.Input] = si
+			} else {
+				placed := false
+				for _, fx := range op.Extra {
+					if generic(fx) && (!placed || rng.IntN(2) == 0) {
+						pl.Subs[fx] = si
+						placed = true
+					}
+				}
+			}
+			out = append(out, pl)
+		}
 	}
 	return out
 }
